@@ -39,7 +39,7 @@ structure Tbl where
   sks : List (Nat × Entry) := []
 
 def isSketchCmd (c : String) : Bool :=
-  c ∈ ["M", "mv", "ml", "mi", "K", "add", "q", "qs", "obs", "merge", "copy", "clear", "rew", "encchk", "dec", "decm", "same", "chmap", "pbchk", "frompb"]
+  c ∈ ["M", "mv", "ml", "mi", "K", "add", "q", "qs", "obs", "merge", "copy", "clear", "rew", "encchk", "dec", "decm", "same", "chmap", "pbchk", "frompb", "fe"]
 
 def parseMKind : String → Option MKind
   | "log" => some .log
@@ -362,6 +362,15 @@ def run (t : Tbl) (cmd : String) (args : List String) : Tbl × String :=
           | some (.ok sk) => (putSk t h { sk := Sk.plain sk, map := parseNat om }, "ok")
       | none => (t, "bad-op")
     | _, _ => (t, "bad-op")
+  | "fe", [h, k] =>
+    -- ForEach with a callback that asks to stop at its k-th call: number of calls made
+    match parseNat k with
+    | some k =>
+      withSk t h fun _ e =>
+        match (inner e.sk).forEachList (envOf t e) with
+        | some l => (t, toString (if k = 0 then l.length else min k l.length))
+        | none => (t, "panic")
+    | none => (t, "bad-op")
   | "encchk", [h, om, bytes] =>
     match parseBytes bytes with
     | some bs => withSk t h fun _ e => (t, encChk e (om == "1") bs)
